@@ -270,7 +270,11 @@ func SetVal(vals []Value) Value {
 	var markSets []ValueMarks
 
 	for i, val := range vals {
-		if unmarkedVal, marks := val.UnmarkDeep(); len(marks) > 0 {
+		// UnmarkDeep rebuilds every set nested inside the value, which in turn
+		// comes back here for each of its elements, so we only pay for that
+		// when there are marks to hoist.
+		if val.ContainsMarked() {
+			unmarkedVal, marks := val.UnmarkDeep()
 			val = unmarkedVal
 			markSets = append(markSets, marks)
 		}
@@ -298,12 +302,10 @@ func SetVal(vals []Value) Value {
 // into a single Set due to inconsistent element types.
 func CanSetVal(vals []Value) bool {
 	elementType := DynamicPseudoType
-	var markSets []ValueMarks
 
 	for _, val := range vals {
-		if unmarkedVal, marks := val.UnmarkDeep(); len(marks) > 0 {
-			val = unmarkedVal
-			markSets = append(markSets, marks)
+		if val.ContainsMarked() {
+			val, _ = val.UnmarkDeep()
 		}
 		if elementType == DynamicPseudoType {
 			elementType = val.ty
